@@ -3,7 +3,7 @@ import collections
 
 from hypothesis import strategies as st
 
-from vlib.core import Outcome, Sub, HarnessError
+from vlib.core import Outcome, Sub, HarnessError, expand_ops, REPEATS
 
 from boltons import cacheutils
 from boltons.cacheutils import LRI, LRU
@@ -133,12 +133,21 @@ def strat(tier):
             'on_miss': draw(st.sampled_from(['none', 'none', 'tuple', 'nonev', 'ident'])),
             'init': draw(st.one_of(st.none(), st.tuples(st.sampled_from(['dict', 'pairs']), pairs).map(list))),
             'ops': draw(st.lists(op, min_size=draw(st.sampled_from([0, 0, 8, 15])), max_size=nops)),
+            'repeat': draw(st.sampled_from(REPEATS)),
         }
     return case()
 
 
+KEYTAB = ['k0', -1, 'k2', -2, '', 'k5', None, 0, 'k8', (1, 2)]     # hash-colliding (-1, -2), falsy and non-string keys
+
+
 def K(i):
-    return 'k%d' % i
+    return KEYTAB[i] if 0 <= i < len(KEYTAB) else 'k%d' % i
+
+
+def KW(i):
+    k = K(i)
+    return k if isinstance(k, str) and k.isidentifier() else 'kw%d' % i
 
 
 def DEFAULT(spec, ref, k):
@@ -163,12 +172,15 @@ def _mk(form, pairs):
     if form == 'iter':
         return (iter(list(prs)),), {}, prs
     if form == 'kwargs':
-        return ({},), dict(d), list(d.items())
+        kw = {}
+        for a, b in pairs:
+            kw[KW(a)] = b
+        return ({},), kw, list(kw.items())
     if form == 'pairs+kw':
         half = len(prs) // 2
         kw = {}
-        for k, v in prs[half:]:
-            kw[k] = v
+        for a, b in pairs[half:]:
+            kw[KW(a)] = b
         return (list(prs[:half]),), kw, prs[:half] + list(kw.items())
     raise HarnessError('form %r' % (form,))
 
@@ -186,8 +198,8 @@ def _check(c, ref, out, where, nkeys, calls):
         return bad('contents', 'dict(cache) = %r' % (d,))
     if n[1] != len(ref.od):
         return bad('len', 'len = %r' % (n,))
-    ks = _call(lambda: sorted(c))
-    if ks != ('ok', sorted(ref.od)):
+    ks = _call(lambda: sorted(c, key=repr))
+    if ks != ('ok', sorted(ref.od, key=repr)):
         return bad('iter', 'sorted(iter(cache)) = %r' % (ks,))
     for i in range(nkeys):
         k = K(i)
@@ -211,7 +223,7 @@ def _check(c, ref, out, where, nkeys, calls):
         return bad('eq', 'cache != dict(same contents) -> %r' % (r,))
     diff = dict(same)
     if diff:
-        k0 = sorted(diff)[0]
+        k0 = sorted(diff, key=repr)[0]
         diff[k0] = ('other', diff[k0])
     else:
         diff['zz'] = 1
@@ -289,7 +301,7 @@ def run(case):
     univ = [[c, ref, calls0]]
     if not _check(c, ref, out, 'after construction', nkeys, calls0):
         return out
-    for step, op in enumerate(case['ops']):
+    for step, (op, full_check) in enumerate(expand_ops(case, (2,))):
         name = op[0]
         u = univ[op[1] % len(univ)]
         c, ref, calls = u
@@ -377,8 +389,8 @@ def run(case):
             got = _call(lambda: k in c)
             exp = ('ok', k in ref.od)
         elif name == 'iterate':
-            got = _call(lambda: (sorted(c), sorted(c.keys()), sorted(c.values(), key=repr), len(c.items())))
-            exp = ('ok', (sorted(ref.od), sorted(ref.od), sorted(ref.od.values(), key=repr), len(ref.od)))
+            got = _call(lambda: (sorted(c, key=repr), sorted(c.keys(), key=repr), sorted(c.values(), key=repr), len(c.items())))
+            exp = ('ok', (sorted(ref.od, key=repr), sorted(ref.od, key=repr), sorted(ref.od.values(), key=repr), len(ref.od)))
         elif name == 'copy':
             r = _call(c.copy)
             if r[0] != 'ok' or type(r[1]) is not cls or r[1] is c:
@@ -416,7 +428,7 @@ def run(case):
                     where, got, exp, list(ref.od.items())))
         elif got[0] != 'exc' or got[1] != exp[1]:
             return out.fail('c02.return.' + name, '%s returned %r, reference raises %s' % (where, got, exp[1]))
-        for j, (cc, rr, cl) in enumerate(univ):
+        for j, (cc, rr, cl) in enumerate(univ if full_check else []):
             if not _check(cc, rr, out, 'after %s, cache #%d' % (where, j), nkeys, cl):
                 if cc is not c and out.kind in ('c02.contents', 'c02.counters'):
                     out.kind += '.other-instance'
@@ -436,6 +448,8 @@ def run(case):
         out.label('copies')
     if max_size > 6:
         out.label('max_size>6')
+    if case.get('repeat', 1) > 1:
+        out.label('long_history')
     return out
 
 
